@@ -455,6 +455,31 @@ func rulesC19(w *World, r *Report) {
 			r.Check(isC && s == "2006-01-02T15:04:05Z", "C19.R2", funcName(f)+":layout", w.instrPos(c), "uses UTCTimeLayout", "a timestamp is printed/parsed with layout "+strconv.Quote(s)+" instead of 2006-01-02T15:04:05Z: printed timestamps no longer parse")
 		}
 	}
+	// what a flag value prints is what it holds: its String method branches on the nil pointer only (a value shown
+	// as the empty string is not accepted back by Set)
+	r.Rule("C19.R6", "flag values round-trip: the String method of the timestamp, aggregation-method and retention-list flag values branches on the nil pointer only, so every value it can hold is printed in the form Set parses", 3)
+	for _, tn := range []string{"timestampValue", "aggregationMethodValue", "archiveInfoListValue"} {
+		f := fn(w.Cmd, tn+".String")
+		if f == nil {
+			continue
+		}
+		bad := ""
+		for _, b := range f.Blocks {
+			if len(b.Instrs) == 0 {
+				continue
+			}
+			iff, ok := b.Instrs[len(b.Instrs)-1].(*ssa.If)
+			if !ok {
+				continue
+			}
+			cond, _ := stripNot(iff.Cond)
+			bo, ok := cond.(*ssa.BinOp)
+			if !ok || !(isNilConst(bo.X) || isNilConst(bo.Y)) {
+				bad = "a test other than the nil test of its pointer (" + shortExpr(newExprCtx(w).expr(iff.Cond)) + " at " + w.blockPos(b) + ") decides what is printed"
+			}
+		}
+		r.Check(bad == "", "C19.R6", "cmd."+tn+".String:prints-what-it-holds", w.pos(f.Pos()), "branches on the nil pointer only", tn+".String: "+bad+": some value is printed in a form Set does not take back")
+	}
 	ruleToStdTimeUTC(w, r, "C19.R2")
 	ruleTimestampFromStdTime(w, r, "C19.R2")
 	if pt := need(w, r, "C19.R2", w.Lib, "ParseTimestamp"); pt != nil {
@@ -725,6 +750,20 @@ func ruleEnumTables(w *World, r *Report, rule string) {
 		dup := names[nm]
 		names[nm] = true
 		r.Check(okMap && !dup, rule, key, "aggregationmethod_enumer.go", fmt.Sprintf("String(%d)=%q parses back to %d", k, nm, k), fmt.Sprintf("String(%d)=%q does not parse back to %d via AggregationMethodString", k, nm, k))
+	}
+	// the name the table gives to the value of a named constant is that constant's name: what `-agg-method max` or a
+	// header's 4 selects is the method the code calls Max
+	for _, cname := range []string{"Average", "Sum", "Last", "Max", "Min", "First"} {
+		v, ok := constValue(w, cname)
+		if !ok || v < 1 || int(v) >= len(index) {
+			r.Undecided(rule, "name-of:"+cname, "-", "constant "+cname+" not found or outside the table")
+			continue
+		}
+		nm := ""
+		if index[v-1] >= 0 && index[v] <= int64(len(nameConst)) && index[v-1] < index[v] {
+			nm = nameConst[index[v-1]:index[v]]
+		}
+		r.Check(nm == strings.ToLower(cname), rule, "name-of:"+cname, "aggregationmethod_enumer.go", fmt.Sprintf("String(%s) = %q", cname, nm), fmt.Sprintf("the generated table calls the value of the constant %s %q: a file created with -agg-method %s (or whose header carries that name's number) is aggregated with another method", cname, nm, strings.ToLower(cname)))
 	}
 	// String() uses the index table with i-1
 	if s := fn(w.Lib, "AggregationMethod.String"); s != nil {
